@@ -219,8 +219,7 @@ def run_cases(ctx, cases):
 
 def run(ctx):
     ctx.make_overlay(need_kernel=True)
-    ok_t, msg = ctx.run_translator("py2v_batch.py", "Gen/BatchTasksGen.v")
-    ctx.note(msg)
+    ok_t = ctx.regen_all(needed=("py2v_batch.py",))
     if ok_t:
         ok_t = ctx.build_models(MODELS)
     if ok_t:
@@ -284,7 +283,7 @@ def replay(ctx, path):
         return run(ctx)
     if case.get("family") == "rw":
         return run(ctx)
-    ok_t, msg = ctx.run_translator("py2v_batch.py", "Gen/BatchTasksGen.v")
+    ok_t = ctx.regen_all(needed=("py2v_batch.py",))
     ok_t = ok_t and ctx.build_models(MODELS)
     if ok_t:
         run_cases(ctx, [case])
